@@ -1,5 +1,6 @@
 """C03 - power deposited over the sweep equals the power assigned."""
 import os
+import copy
 import shutil
 import numpy as np
 from vmon import gen, drive, workloads as wl, env
@@ -72,6 +73,10 @@ def cases(tier, seed):
     for i in range(nd):
         out.append({'name': 'heatup-%d' % i, 'kind': 'heatup',
                     'seed': [seed, 36, i]})
+    nt = 6 if tier == 'quick' else 120
+    for i in range(nt):
+        out.append({'name': 'timepoints-%d' % i, 'kind': 'timepoints',
+                    'seed': [seed, 37, i]})
     for ds in ('single_asm_refl', 'single_asm_vac'):
         # the repository's input as it is; the same with another requested
         # core power and a scaling factor; the same with the assembly
@@ -275,6 +280,74 @@ def run_history(case, res):
                           'others)', dict(k, mech='aligned'))
             res.tag('history_change=' + what)
     res.nontrivial('hist/%s' % case['seed'][-1])
+    return feats
+
+
+def run_timepoints(case, res):
+    """Several time points (one power file each, different totals and
+    shapes) and one model per time point built from the SAME parsed input,
+    as a serial multi-time-point run does: every model gets the power of
+    its own file (with the input's normalisation / scaling, if any)."""
+    rng = np.random.default_rng(case['seed'])
+    if rng.random() < 0.5:
+        P, feats = wl.single_assembly(rng, tdep=False, max_rings=4, lf=False,
+                                      gap=wl.choose(rng, ['none', 'flow']),
+                                      vel=wl.loguniform(rng, 0.5, 5.0),
+                                      length=0.5)
+    else:
+        P, feats = wl.core_problem(rng, n_ring=2, gap=wl.choose(
+            rng, ['flow', 'none']), empty_frac=0.2, max_rings=3, length=0.5,
+            vel_range=(0.5, 5.0), lf_frac=0.0)
+    mode = wl.choose(rng, ['plain', 'plain', 'norm', 'scaling'])
+    if mode == 'norm':
+        P['power']['total_power'] = float(rng.uniform(0.2, 3.0) * 1e5)
+    elif mode == 'scaling':
+        P['power']['scaling'] = float(wl.choose(rng, [0.5, 2.0, 3.0]))
+    n_tp = int(rng.integers(2, 4))
+    key = {'kind': 'timepoints', 'mode': mode}
+    with drive.scratch() as d:
+        path = gen.render(P, d)
+        variants, names = [P], ['power.csv']
+        for i in range(1, n_tp):
+            Qi = copy.deepcopy(P)
+            Qi['power']['seed'] = int(rng.integers(1 << 30))
+            for sp in Qi['power']['asm'].values():
+                sp['total'] = sp['total'] * float(rng.uniform(0.5, 1.8))
+            nm = 'power_tp%d.csv' % (i + 1)
+            gen.write_power_csv(Qi, os.path.join(d, nm))
+            names.append(nm)
+            variants.append(Qi)
+        txt = open(path).read().replace('user_power = power.csv',
+                                        'user_power = ' + ', '.join(names))
+        open(path, 'w').write(txt)
+        inp = drive.read_input(path)
+        for t in range(n_tp):
+            r = drive.build_reactor(inp, timestep=t,
+                                    path=os.path.join(d, 'tp%d' % (t + 1)))
+            exp, exp_tot = expected_assigned(variants[t])
+            k = dict(key, timepoint=t + 1)
+            res.close('P3_core_total', r.total_power - exp_tot, abs(exp_tot),
+                      TOL, 'Reactor.total_power of time point %d != power of '
+                      'its own file (x normalisation / scaling of the input)'
+                      % (t + 1), k, {'got': r.total_power, 'exp': exp_tot})
+            for a in r.assemblies:
+                res.close('P2_assigned_equals_file_integral',
+                          a.total_power - exp[a.id], abs(exp[a.id]) + 1e-12,
+                          TOL, 'Assembly.total_power of time point %d != '
+                          'integral of its own power file' % (t + 1), k,
+                          {'asm': a.id, 'got': a.total_power,
+                           'exp': exp[a.id]})
+            if t == n_tp - 1:
+                drive.sweep(r)
+                for a in r.assemblies:
+                    got = float(sum(a._power_delivered.values()))
+                    res.close('P1_delivered_equals_assigned',
+                              got - exp[a.id], abs(exp[a.id]) + 1e-12, TOL,
+                              'power delivered in the last time point != '
+                              'power of its own file', dict(k, mech='aligned'))
+    res.tag('timepoints=%d' % n_tp)
+    res.tag('timepoints_mode=' + mode)
+    res.nontrivial('tp/%s/%s' % (mode, case['seed'][-1]))
     return feats
 
 
@@ -492,6 +565,8 @@ def run_case(case):
             feats = run_history(case, res)
         elif case['kind'] == 'heatup':
             feats = run_heatup(case, res)
+        elif case['kind'] == 'timepoints':
+            feats = run_timepoints(case, res)
         else:
             feats = run_varpow(case, res)
         res.sample({'case': case, 'features': feats})
